@@ -40,62 +40,37 @@ Theorem C06_tiling_exact : forall ds, ds_shape_prop ds -> ds_local_prop ds ->
 Proof. exact tiling_exact. Qed.
 Print Assumptions C06_tiling_exact.
 
-(* Inside [tiling_guard] (compat, or along each other axis: old chunk = factor
-   * half chunk, half chunk >= 2 and dividing the new chunk) a run that does
-   not raise wrote the right data: "fails with an error instead of writing
-   wrong data". *)
-Theorem C06_tiling_sound_on_guard : forall ds, ds_shape_prop ds -> ds_local_prop ds ->
-  forall g lvl chunks, tiling_guard g = true -> a_sh lvl = g_os g -> a_c lvl = g_ch g ->
-  tile_level ds g lvl = Ok chunks -> Forall (chunk_is_restriction ds g lvl) chunks.
-Proof. exact tiling_sound_on_guard. Qed.
-Print Assumptions C06_tiling_sound_on_guard.
+(* "If a pair of scales cannot be processed, the tool fails with an error
+   instead of writing wrong data" - WITHOUT any guard (since /repo e7c7a72
+   refuses the half-chunk-1 stretch up front): for every geometry with positive
+   sizes and every local downscaler, a transition that does not raise wrote,
+   in every chunk, the whole previous level downscaled once. *)
+Theorem C06_tiling_sound : forall ds, ds_shape_prop ds -> ds_local_prop ds ->
+  forall g lvl chunks,
+  geom_pos g = true -> a_sh lvl = g_os g -> a_c lvl = g_ch g ->
+  tile_level ds g lvl = Ok chunks ->
+  Forall (chunk_is_restriction ds g lvl) chunks.
+Proof. exact tiling_sound. Qed.
+Print Assumptions C06_tiling_sound.
 
-Theorem C06_no_uninit_on_guard : forall ds, ds_shape_prop ds -> ds_local_prop ds ->
-  forall g lvl chunks, tiling_guard g = true -> a_sh lvl = g_os g -> a_c lvl = g_ch g ->
+(* no voxel of a written chunk is left uninitialised *)
+Theorem C06_no_uninit : forall ds, ds_shape_prop ds -> ds_local_prop ds ->
+  forall g lvl chunks,
+  geom_pos g = true -> a_sh lvl = g_os g -> a_c lvl = g_ch g ->
   tile_level ds g lvl = Ok chunks ->
   forall lo hi buf c p, In (lo, hi, buf) chunks -> 0 <= c < g_ch g ->
     (forall a, 0 <= get3 a p < get3 a (sub3 hi lo)) -> b_get buf c p <> Uninit.
-Proof. exact no_uninit_on_guard. Qed.
-Print Assumptions C06_no_uninit_on_guard.
+Proof. exact no_uninit. Qed.
+Print Assumptions C06_no_uninit.
 
-(* Stronger: for any geometry with positive sizes, a run that does not raise
-   OUTSIDE the stretch class (half chunk of exactly 1 facing min(new chunk,
-   new size) >= 3 along some axis) is a compat geometry - so the length-1
-   stretch is the ONLY way compute_dyadic_downscaling can write a wrong level
-   without raising. *)
-Theorem C06_ok_outside_stretch_is_compat : forall ds, ds_shape_prop ds ->
-  forall g lvl chunks,
-  geom_pos g = true -> tile_level ds g lvl = Ok chunks -> stretch_class g = false ->
-  compat g = true.
-Proof. exact ok_outside_stretch_is_compat. Qed.
-Print Assumptions C06_ok_outside_stretch_is_compat.
-
-Theorem C06_tiling_sound_outside_stretch : forall ds, ds_shape_prop ds -> ds_local_prop ds ->
-  forall g lvl chunks,
-  geom_pos g = true -> stretch_class g = false -> a_sh lvl = g_os g -> a_c lvl = g_ch g ->
-  tile_level ds g lvl = Ok chunks ->
-  Forall (chunk_is_restriction ds g lvl) chunks.
-Proof. exact tiling_sound_outside_stretch. Qed.
-Print Assumptions C06_tiling_sound_outside_stretch.
-
-(* Outside the guard the property fails: old chunks (8,2,2) -> new chunks
-   (8,4,4) on sizes (9,5,1) -> (5,3,1), factors (2,2,1).  Along y the half
-   chunk is 1 and the new chunk has 3 rows: NumPy repeats the single
-   downscaled row, nothing is raised, the data is wrong. *)
-Theorem C06_tiling_refuted :
-  tiling_guard witness_geom = false /\ stretch_class witness_geom = true /\
-  geom_pos witness_geom = true /\ sizes_ok witness_geom = true /\
-  a_sh witness_level = g_os witness_geom /\ a_c witness_level = g_ch witness_geom /\
-  exists chunks, tile_level ds_stride witness_geom witness_level = Ok chunks /\
-                 ~ Forall (chunk_is_restriction ds_stride witness_geom witness_level) chunks.
-Proof. exact tiling_refuted_stride. Qed.
-Print Assumptions C06_tiling_refuted.
-
-Theorem C06_tiling_refuted_average :
-  exists chunks, tile_level ds_avg witness_geom witness_level = Ok chunks /\
-                 ~ Forall (chunk_is_restriction ds_avg witness_geom witness_level) chunks.
-Proof. exact tiling_refuted_avg. Qed.
-Print Assumptions C06_tiling_refuted_average.
+(* exact characterisation of the transitions that are processed: "no error"
+   coincides with the executable predicate compat *)
+Theorem C06_ok_iff_compat : forall ds, ds_shape_prop ds -> ds_local_prop ds ->
+  forall g lvl,
+  geom_pos g = true -> a_sh lvl = g_os g -> a_c lvl = g_ch g ->
+  ((exists chunks, tile_level ds g lvl = Ok chunks) <-> compat g = true).
+Proof. exact ok_iff_compat. Qed.
+Print Assumptions C06_ok_iff_compat.
 
 (* The level read back after one transition (whatever np.empty contained). *)
 Theorem C06_next_level_exact : forall ds poison, ds_shape_prop ds -> ds_local_prop ds ->
@@ -128,31 +103,49 @@ Theorem C06_pyramid_exact : forall ds poison,
 Proof. exact pyramid_exact. Qed.
 Print Assumptions C06_pyramid_exact.
 
-(* Composition with the scale generator (C08): the scales the generator emits
-   CAN reach the silent class - for 65 x 5 x 1 voxels at 1:8:32 nm and target
-   chunk size 4 the first three transitions are exact and the last one writes
-   wrong voxels without any error. *)
-Theorem C06_generated_pairs_refuted :
+(* The level loop without any guard: on scales with positive sizes,
+   compute_dyadic_scales either raises or every level is the whole previous
+   level downscaled once. *)
+Theorem C06_pyramid_sound : forall ds poison,
+  ds_shape_prop ds -> ds_local_prop ds -> ds_ext_prop ds ->
+  forall ch scales lvl lvl' out,
+  all_pairs_ok geom_pos ch scales = true ->
+  (forall s0, hd_error scales = Some s0 -> a_sh lvl = sg_size s0) -> a_c lvl = ch ->
+  arr_eq lvl lvl' ->
+  pyramid ds poison ch scales lvl = Ok out ->
+  Forall2 arr_eq out (pyramid_ref ds scales lvl').
+Proof. exact pyramid_sound. Qed.
+Print Assumptions C06_pyramid_sound.
+
+(* Composition with the scale generator (C08), positive form: over every info
+   the generator can produce, every channel count and every level-0 array, the
+   pyramid computation is classified exact-or-error. *)
+Theorem C06_generated_pairs : forall ds poison,
+  ds_shape_prop ds -> ds_local_prop ds -> ds_ext_prop ds ->
+  forall full res target ms scales ch lvl out,
+  gen_scales full res target ms = Ok scales -> 0 < ch ->
+  (forall s0, hd_error (map geo_of_scale scales) = Some s0 -> a_sh lvl = sg_size s0) ->
+  a_c lvl = ch ->
+  pyramid ds poison ch (map geo_of_scale scales) lvl = Ok out ->
+  Forall2 arr_eq out (pyramid_ref ds (map geo_of_scale scales) lvl).
+Proof. exact generated_pairs. Qed.
+Print Assumptions C06_generated_pairs.
+
+(* non-vacuity, and the former silent-wrong witnesses: both are now refused
+   with ValueError (old chunks (8,2,2) -> new chunks (8,4,4) on sizes (9,5,1) ->
+   (5,3,1); generator output for 65 x 5 x 1 voxels at 1:8:32 nm, target 4) *)
+Example C06_former_witness_refused :
+  stretch_class witness_geom = true /\ geom_pos witness_geom = true /\
+  tile_level ds_stride witness_geom witness_level = Crash ValueError /\
+  tile_level ds_avg witness_geom witness_level = Crash ValueError.
+Proof. exact former_witness_refused. Qed.
+
+Example C06_former_generated_witness_refused :
   generated_pair_bad gp_full gp_res 4 = true /\
-  silent_wrong_run ds_stride gp_full gp_res 4 (levels 325) = true /\
-  silent_wrong_run ds_avg gp_full gp_res 4 (levels 325) = true.
-Proof. exact generated_pairs_refuted. Qed.
-Print Assumptions C06_generated_pairs_refuted.
+  pyramid_outcome_is_value_error ds_stride gp_full gp_res 4 (levels 325) = true /\
+  pyramid_outcome_is_value_error ds_avg gp_full gp_res 4 (levels 325) = true.
+Proof. exact former_generated_witness_refused. Qed.
 
-Theorem C06_generated_pairs_on_guard : forall full res target scales ch,
-  gen_scales full res target 0 = Ok scales ->
-  all_pairs_ok compat ch (map geo_of_scale scales) = true ->
-  forall s0 s1 pre post, map geo_of_scale scales = pre ++ s0 :: s1 :: post ->
-    compat (geom_of ch s0 s1) = true.
-Proof. exact generated_pairs_on_guard. Qed.
-Print Assumptions C06_generated_pairs_on_guard.
-
-(* non-vacuity *)
 Example C06_compat_example :
   compat {| g_os := (9, 5, 3); g_ns := (5, 5, 2); g_oc := (4, 2, 2); g_nc := (4, 2, 1); g_ch := 2 |} = true.
 Proof. exact compat_example. Qed.
-
-Example C06_guard_example :
-  let g := {| g_os := (20, 5, 3); g_ns := (10, 5, 3); g_oc := (4, 2, 2); g_nc := (8, 2, 2); g_ch := 1 |} in
-  tiling_guard g = true /\ compat g = false.
-Proof. exact guard_not_compat_example. Qed.
